@@ -14,11 +14,11 @@ abbrev MThread := Gau.Thread Reading Unit
 abbrev MCfg := Gau.Cfg Reading Unit
 
 /-- `Model.RecordReading(v)` as written in /repo -/
-def recordCall (v : String) : MCall := ⟨false, fun _ => none, fun o t => recordReading o v t⟩
+def recordCall (v : String) : MCall := ⟨false, fun _ => none, fun o t => recordReading o v t, true⟩
 /-- `Model.Reset()` as written in /repo -/
-def resetCall : MCall := ⟨true, fun _ => none, fun o t => reset o t⟩
+def resetCall : MCall := ⟨true, fun _ => none, fun o t => reset o t, true⟩
 /-- NOT in /repo: a `RecordReading` that takes its timestamp before `Set` ("same shape as Reset") -/
-def earlyRecordCall (v : String) : MCall := ⟨true, fun _ => none, fun o t => recordReading o v t⟩
+def earlyRecordCall (v : String) : MCall := ⟨true, fun _ => none, fun o t => recordReading o v t, true⟩
 
 /-- a program of the real model's calls: `some v` = `RecordReading(v)`, `none` = `Reset()` -/
 def codeCalls (prog : List (Option String)) : List MCall :=
